@@ -39,6 +39,7 @@ type Plan struct {
 	NotDecided []string    `json:"not_decided"`
 	Trusted    []string    `json:"trusted"`
 	Kinds      []string    `json:"kinds"` // restrict claimed obligations to these kinds (empty = all)
+	Claim      []string    `json:"claim"` // restrict claimed obligations to names matching one of these patterns (empty = all)
 }
 
 type Finding struct {
@@ -206,14 +207,33 @@ func cmdCheck(args []string) int {
 	}
 	// obligations of kinds that belong to other properties' claims are not decided here
 	otherKinds := 0
-	if len(plan.Kinds) > 0 {
+	var claimRe []*regexp.Regexp
+	for _, p := range plan.Claim {
+		re, err := regexp.Compile(p)
+		if err != nil {
+			return engineErr("bad claim pattern %q", p)
+		}
+		claimRe = append(claimRe, re)
+	}
+	if len(plan.Kinds) > 0 || len(claimRe) > 0 {
 		var kept []*vc.Obligation
 		for _, ob := range all {
-			ok := ob.Kind == "cover"
+			ok := len(plan.Kinds) == 0
 			for _, k := range plan.Kinds {
 				if k == ob.Kind {
 					ok = true
 				}
+			}
+			if ok && len(claimRe) > 0 {
+				ok = false
+				for _, re := range claimRe {
+					if re.MatchString(ob.Name) {
+						ok = true
+					}
+				}
+			}
+			if ob.Kind == "cover" {
+				ok = true
 			}
 			if ok {
 				kept = append(kept, ob)
